@@ -34,7 +34,9 @@ RULE = ("cases = (operation, option combination, operand DFAs); quick: seeded ra
         "to_partial/to_complete incl. custom trap names (fresh, taken, equal to the key of a junk row), DFAs over the "
         "empty alphabet, operators | & - ^ ~; sequences of 2–4 calls (to_partial, minify, complement, ~, "
         "to_complete, | & - ^, isempty, isfinite, maximum_word_length, ==, <=) on ONE object kept alive, every result "
-        "evaluated; non-trivial = every operand has ≥2 "
+        "evaluated; the same sequences (after 0–2 unjudged queries, one step often repeated) on operands built under "
+        "allow_mutable_automata=True from PLAIN set/dict containers, every result judged against FROZEN TWINS (the "
+        "definitions as built); non-trivial = every operand has ≥2 "
         "reachable states and the result language is neither empty nor universal; distinct = distinct "
         "(operation, options, encoded operands)")
 ASSUMPTIONS = [
@@ -372,6 +374,26 @@ def run_sequences(ctx: Ctx, n: int):
         do_sequence(ctx, d, b, dfa_sequences.draw_steps(rng), "sequence_on_one_object")
 
 
+@guarded
+def do_mutable_sequence(ctx: Ctx, ref_d: DFA, ref_b: DFA, pre, steps, option_during_calls: bool, origin: str):
+    from harness import dfa_sequences
+    dfa_sequences.run_mutable_sequence(ctx, ref_d, ref_b, pre, steps, option_during_calls, origin, seq_on_dfa(ctx))
+
+
+def run_mutable_option(ctx: Ctx, n: int):
+    """Operands built under allow_mutable_automata=True from PLAIN set/dict containers (the library then keeps
+    the caller's containers); 0–2 unjudged queries, then 1–4 operations / conversions on the same objects, every
+    result judged (valid, language = the set operation) against the FROZEN twins — the definitions as built."""
+    from harness import dfa_sequences
+    rng = ctx.rng
+    for _ in range(n):
+        al = rng.choice(gen.ALPHABETS)
+        d = gen.rand_dfa(rng, 6, al, partial=True if rng.random() < 0.5 else None)
+        b = gen.rand_dfa(rng, 4, al)
+        pre, steps, on = dfa_sequences.draw_mutable_history(rng)
+        do_mutable_sequence(ctx, d, b, pre, steps, on, "mutable_option_sequence")
+
+
 def run_junk_trap(ctx: Ctx, n: int):
     """to_complete(trap_state=<key of a junk row>) and the other operations on DFAs with junk rows."""
     rng = ctx.rng
@@ -467,6 +489,7 @@ def search(ctx: Ctx):
         k = rng.random()
         if k < 0.1:
             run_sequences(ctx, 1)
+            run_mutable_option(ctx, 1)
         elif k < 0.4:
             do_binop(ctx, rng.choice(list(OPS)), a, b, r, True, "search")
         elif k < 0.6:
@@ -531,6 +554,7 @@ def run(ctx: Ctx):
         ctx.exhaustive("all DFAs with ≤2 states over {a,b}: complement / to_partial (4 option combinations), to_complete (3 trap modes)")
     # sequences of calls on one object
     run_sequences(ctx, ctx.budget(700, 12000))
+    run_mutable_option(ctx, ctx.budget(500, 10000))
     # 2. shaped random
     for _ in range(ctx.budget(4000, 60000)):
         al = rng.choice(gen.ALPHABETS)
@@ -570,6 +594,9 @@ def replay(ctx: Ctx, path: str) -> int:
         do_to_partial(ctx, eval(rp["A"], env), rp["retain_names"], rp["minify"], "replay")
     elif op == "to_complete":
         do_to_complete(ctx, eval(rp["A"], env), rp["mode"], "replay")
+    elif op == "sequence" and rp.get("mutable"):
+        do_mutable_sequence(ctx, eval(rp["A"], env), eval(rp["B"], env), rp.get("pre", []), rp["steps"],
+                            rp.get("option_during_calls", True), "replay")
     elif op == "sequence":
         do_sequence(ctx, eval(rp["A"], env), eval(rp["B"], env), rp["steps"], "replay")
     elif op == "expression" and "tree" in rp:
